@@ -122,7 +122,7 @@ type tRow struct {
 type dRow struct {
 	D int32 `parquet:"d,dict"`
 	O int32 `parquet:"o,optional,dict"`
-	B bool  `parquet:"b,rle"`
+	B bool  `parquet:"b"`
 }
 
 func genTRows(seed int64, n int) []tRow {
@@ -443,7 +443,11 @@ var buildPanics = map[string]int{}
 func build(sp spec) (f *factory, ok bool) {
 	defer func() {
 		if r := recover(); r != nil {
-			buildPanics[fmt.Sprint(r)]++
+			if sp.Family == "gen" {
+				buildPanics["gen: "+fmt.Sprint(r)]++
+			} else {
+				buildPanics[fmt.Sprint(r)]++
+			}
 			f, ok = nil, false
 		}
 	}()
@@ -1602,6 +1606,11 @@ func runC17(c *core.Ctx) {
 
 	// ---- classification lookups answered by the extracted model ----
 	if c.HasOracle() {
+		// the classification of the regenerated field lists, evaluated by the
+		// extracted model: names the field that stops C17_classification_total
+		if got := c.Ask("c17.totality x"); got != "ok" {
+			c.Mismatch("proof:C17_classification_total ("+got+": classify the field in coq/theories/Reset/Classification.v)", "field lists of Generated/StateFields.v", "every field classified", got, nil)
+		}
 		for _, q := range [][3]string{{"writer", "rowGroups", "reset"}, {"writer", "metadata", "reset"}, {"ColumnWriter", "filter", "scratch"},
 			{"ColumnWriter", "columnPath", "config"}, {"ColumnWriter", "rowGroupOrdinal", "reset"}, {"writer", "no-such-field", "none"}} {
 			if got := c.Ask("c17.classify " + q[0] + " " + q[1]); got != q[2] {
@@ -1619,7 +1628,11 @@ func runC17(c *core.Ctx) {
 	}
 
 	for msg, n := range buildPanics {
+		// generated schemas may be refused by the library; the typed families must always build
 		c.Note("%d specs could not be built: %s", n, core.Trunc(msg, 200))
+		if !strings.Contains(msg, "gen:") {
+			c.Violation("spec-unbuildable", fmt.Sprintf("%d typed specs could not be built: %s", n, core.Trunc(msg, 300)), nil)
+		}
 	}
 
 	// ---- cases.v: the same model runs inside coqc ----
